@@ -70,6 +70,13 @@ func (e *bcEngine) Gen(rng *rand.Rand, tier string, n int, emit func(string)) {
 	emit("conn cancel:0")
 	emit("conn eof")
 	emit("conn ack:0:5 pub:1:3")
+	emit("conn ack:0:6 pub:1:3 pa:3 eof") // reserved return codes are refusals too
+	// inbound and outbound exchanges that happen to use the same packet identifier (the two directions have separate identifier spaces)
+	emit("conn ack:0:0 pub:2:5 pr:5 in:2:5 pc:5 rel:5 in:1:5 pub:1:5 pa:5")
+	emit("conn ack:0:0 in:2:5 pub:2:5 pr:5 pc:5 rel:5 rel:5")
+	emit("conn ack:0:0 in:2:7 in:1:7 pub:1:7 pa:7 pub:2:7 pr:7 rel:7 pc:7 unsub:7 ua:7 in:2:7 sub:1:7 sa:7:01 rel:7")
+	emit("conn ack:1:132 ping pg lclose")
+	emit("conn ack:0:255 disc")
 	emit("conn ack:1:0 pub:2:9 pr:9 cancel:1 pc:9 disc")
 	emit("conn ack:0:0 ping pub:1:1 sub:1:2 unsub:3 pub:2:4 bad")
 	emit("conn ack:0:0 ping pub:1:1 sub:1:2 unsub:3 pub:2:4 lclose")
@@ -165,7 +172,7 @@ func (e *bcEngine) Gen(rng *rand.Rand, tier string, n int, emit func(string)) {
 		case 0:
 			evs = append(evs, "cancel:"+fmt.Sprint(len(evs)-1))
 		case 1:
-			evs = append(evs, fmt.Sprintf("ack:0:%d", 1+rng.Intn(5)))
+			evs = append(evs, fmt.Sprintf("ack:0:%d", []int{1, 2, 3, 4, 5, 6, 7, 0x84, 255}[rng.Intn(9)]))
 		default:
 			evs = append(evs, fmt.Sprintf("ack:%d:0", rng.Intn(2)))
 		}
@@ -820,6 +827,68 @@ func (e *bcEngine) Exec(f []string) Result {
 			if ok && !(cl.done && strings.HasPrefix(cl.ret, "ok")) {
 				props = append(props, viol("C07", "own-ack-not-honoured", "call %d (%s id %d) is still blocked (or failed: %q) although its own acknowledgement %v arrived after it was made, on a healthy connection", k, cl.kind, cl.id, cl.ret, need))
 			}
+		}
+	}
+	// C04: inbound QoS 1 / QoS 2 flows are acknowledged whatever else happens on the connection (outbound requests
+	// with the same identifiers, their acknowledgements, cancellations): each PUBLISH qos 1 → one PUBACK, each first
+	// PUBLISH qos 2 → PUBREC, each PUBREL of a message received and not yet released → one PUBCOMP
+	{
+		conn, over, wfOn := false, false, false
+		q2 := map[int]bool{}
+		var want []string
+		for i, ev := range evs {
+			t := strings.Split(ev, ":")
+			switch t[0] {
+			case "ack":
+				if t[2] == "0" && !conn && !over {
+					conn = true
+				} else if t[2] != "0" && !conn {
+					over = true
+				}
+			case "eof", "lclose", "bad", "disc", "cancel":
+				over = true // conservative: no claim after anything that may end or disturb the connection
+			case "wf":
+				wfOn = t[1] == "1"
+				over = true
+			case "sa":
+				over = true // a SUBACK of the wrong length ends the connection
+			case "in":
+				if conn && !over && !wfOn && !ackFail[i] {
+					id := atoi(t[2])
+					switch t[1] {
+					case "1":
+						want = append(want, fmt.Sprintf("a%d", id))
+					case "2":
+						want = append(want, fmt.Sprintf("r%d", id))
+						q2[id] = true
+					}
+				}
+			case "rel":
+				if conn && !over && !wfOn {
+					if id := atoi(t[1]); q2[id] {
+						delete(q2, id)
+						want = append(want, fmt.Sprintf("c%d", id))
+					}
+				}
+			}
+		}
+		var got []string
+		for _, w := range ws {
+			if len(w) > 1 && (w[0] == 'a' || w[0] == 'r' || w[0] == 'c') {
+				got = append(got, w)
+			}
+		}
+		// the acknowledgements claimed above must appear, in this order, among those written
+		gi := 0
+		for _, w := range want {
+			for gi < len(got) && got[gi] != w {
+				gi++
+			}
+			if gi == len(got) {
+				props = append(props, viol("C04", "inbound-flow-broken-by-outbound-traffic", "acknowledgement %s of an inbound message was not written (expected, in order, %v; written %v)", w, want, got))
+				break
+			}
+			gi++
 		}
 	}
 	// C06: a malformed packet ends the link. If the first thing that can end the connection in this script is a
